@@ -222,11 +222,12 @@ def finish(prop, level, tier, seed, t0, res, assumptions, technique_note, extra_
         else:
             new.append((sig, vs))
     rc = 0
-    os.makedirs(os.path.join(ROOT, "replays", prop), exist_ok=True)
+    OUT = os.environ.get("VERIF_OUT_DIR", ROOT)    # seeded-change runs write their evidence/replays elsewhere
+    os.makedirs(os.path.join(OUT, "replays", prop), exist_ok=True)
     for sig, vs in new:
         v = min(vs, key=lambda x: len(json.dumps(x["case"])))
         h = case_hash({"sig": sig, "case": v["case"]})[:16]
-        path = os.path.join(ROOT, "replays", prop, h + ".json")
+        path = os.path.join(OUT, "replays", prop, h + ".json")
         json.dump({"property": prop, "space": v["space"], "signature": sig, "what": v["what"], "case": v["case"],
                    "extra": v["extra"], "tier": tier}, open(path, "w"), indent=1)
         print("VIOLATION property=%s replay=%s  # %s: %s" % (prop, path, sig, v["what"]))
@@ -261,8 +262,8 @@ def finish(prop, level, tier, seed, t0, res, assumptions, technique_note, extra_
         cov.update(extra_cov)
     ev = {"property_id": prop, "tier": tier, "seed": seed, "level": level, "coverage": cov,
           "assumptions": assumptions, "wall_s": round(time.time() - t0, 2), "violations": len(new)}
-    os.makedirs(os.path.join(ROOT, "evidence"), exist_ok=True)
-    json.dump(ev, open(os.path.join(ROOT, "evidence", prop + ".json"), "w"), indent=1)
+    os.makedirs(os.path.join(OUT, "evidence"), exist_ok=True)
+    json.dump(ev, open(os.path.join(OUT, "evidence", prop + ".json"), "w"), indent=1)
     print("%s tier=%s cases=%d distinct_nontrivial=%d exhaustive=%s known=%d new=%d wall=%.1fs" % (
         prop, tier, evaluations, nontrivial, exhaustive, len(matched), len(new), time.time() - t0))
     return rc
